@@ -217,3 +217,30 @@ Ltac post_deep :=
     | lazymatch goal with
       | |- hoare _ ?m _ _ => let h := head_of m in unfold h
       end ].
+
+(* totality: no path of m fails or panics *)
+Definition nofail {A} (m : M A) : Prop := hoare (fun _ => True) m (fun _ _ => True) (fun _ => False).
+Lemma nofail_ok A (m : M A) s : nofail m -> exists a s', m s = Ok a s'.
+Proof. intros H; specialize (H s I). destruct (m s); [eauto | contradiction | contradiction]. Qed.
+Lemma nofail_mfold A B (l : list A) (f : B -> A -> M B) :
+  (forall acc x, nofail (f acc x)) -> forall acc, nofail (mfold l acc f).
+Proof.
+  intros H; induction l as [|x l IH]; intros acc; cbn [mfold]; [apply hoare_ret; auto|].
+  eapply hoare_bind; [apply H | intros acc' s _; apply IH; exact I].
+Qed.
+Ltac nofail_deep :=
+  repeat first
+    [ lazymatch goal with
+      | |- nofail _ => unfold nofail
+      | |- hoare _ (bind _ _) _ _ => eapply hoare_bind with (Q1 := fun _ _ => True); [| intros ?]
+      | |- hoare _ (ret _) _ _ => apply hoare_ret; intros; exact I
+      | |- hoare _ (gets _) _ _ => apply hoare_gets; intros; exact I
+      | |- hoare _ (modify _) _ _ => apply hoare_modify; intros; exact I
+      | |- hoare _ (mfor _ _) _ _ => apply (hoare_mfor _ (fun _ => True) (fun _ => False)); intros ?
+      | |- hoare _ (mfold _ _ _) _ _ => apply nofail_mfold; intros ? ?
+      | |- hoare _ (if ?b then _ else _) _ _ => destruct b eqn:?
+      | |- hoare _ (match ?x with _ => _ end) _ _ => destruct x eqn:?
+      end
+    | lazymatch goal with
+      | |- hoare _ ?m _ _ => let h := head_of m in unfold h
+      end ].
